@@ -96,14 +96,24 @@ def arrange(draw, base, extras, order):
 
 @st.composite
 def extras_for(draw, C, max_extra=4):
+    """Perturbation items, half of them sitting just above / below the class boundaries binsize/3 and binsize/2."""
     n = draw(st.integers(0, max_extra))
-    kinds = st.sampled_from(["tiny", "small", "medium", "medium", "big", "huge"])
+    kinds = st.sampled_from(["tiny", "small", "medium", "just-above-third", "just-above-third", "just-below-half", "just-above-half",
+                             "big", "huge"])
+    eps = max(1, C // 100)
     out = []
+    same = draw(st.booleans())           # several copies of one perturbation item, or independent ones
+    first = None
     for _ in range(n):
+        if same and first is not None:
+            out.append(first)
+            continue
         kind = draw(kinds)
         lo, hi = {"tiny": (1, max(1, C // 50)), "small": (1, max(1, C // 3 - 1)), "medium": ((C + 2) // 3, max((C + 2) // 3, (C - 1) // 2)),
-                  "big": ((C + 1) // 2, C), "huge": (C, 2 * C)}[kind]
-        out.append(draw(st.integers(lo, max(lo, hi))))
+                  "just-above-third": ((C + 2) // 3, (C + 2) // 3 + eps), "just-below-half": (max(1, (C - 1) // 2 - eps), max(1, (C - 1) // 2)),
+                  "just-above-half": ((C + 1) // 2, (C + 1) // 2 + eps), "big": ((C + 1) // 2, C), "huge": (C, 2 * C)}[kind]
+        first = draw(st.integers(lo, max(lo, hi)))
+        out.append(first)
     return out
 
 
@@ -150,7 +160,7 @@ def published_families(draw):
     """The worst-case families printed in Csirik-Frenk-Labbe-Zhang (1999) and in the docstrings, parametrised by k and
     scaled, with up to 4 extra items at generated positions and a generated arrival order."""
     fam = draw(st.sampled_from(["half", "half", "threequarters", "threequarters", "mixed-501"]))
-    k = draw(st.integers(1, 20))
+    k = draw(st.integers(1, 40))
     c = draw(st.sampled_from([1, 1, 1, 2, 3, 10]))
     if fam == "half":            # bins [499,499,1,1] x 3k
         C, base, lower = 1000, [1000 - 6 * k] + 6 * k * [499] + 6 * k * [1], 3 * k
@@ -195,8 +205,8 @@ def legs(tier):
             strategy=planted_cases(), n_quick=1200, n_thorough=24000, valid=valid, shrink=shrink, floor=0.03),
         Leg("published", evaluate,
             "hypothesis: the published worst-case families (1000: [1000-6k]+6k*[499]+6k*[1]; 1200: [594,594]+12k*[399]+12k*[1]; "
-            "1000: [994]+2k*[501]+4k*[499]+12k*[1]) for k = 1..20, scaled, with up to 4 extra items and a generated arrival order; "
-            "same oracle and rule", strategy=published_families(), n_quick=600, n_thorough=12000, valid=valid, shrink=shrink, floor=0.03),
+            "1000: [994]+2k*[501]+4k*[499]+12k*[1]) for k = 1..40, scaled, with up to 4 extra items and a generated arrival order; "
+            "same oracle and rule", strategy=published_families(), n_quick=1500, n_thorough=30000, valid=valid, shrink=shrink, floor=0.03),
     ]
 
 
